@@ -234,13 +234,12 @@ class Scanner:
                 self.error("expected the assignment operator")
             self.skip_trivia()
 
-        if self.peek() == "&":
-            self.emit(TokenKind.POSITIVE_PREDICATE, self.next())
-            self.skip_trivia()
-        elif self.peek() == "!":
-            while self.peek() == "!":
+        while self.peek() in ("&", "!"):
+            if self.peek() == "&":
+                self.emit(TokenKind.POSITIVE_PREDICATE, self.next())
+            else:
                 self.emit(TokenKind.NEGATIVE_PREDICATE, self.next())
-                self.skip_trivia()
+            self.skip_trivia()
 
         if self.accept_terminal():
             self.accept_postfix_op()
@@ -376,6 +375,14 @@ class Scanner:
         return False
 
     def accept_postfix_op(self) -> None:
+        # Any number of postfix operators, possibly separated by trivia.
+        while True:
+            self.skip_trivia()
+            if self.peek() not in ("?", "*", "+", "{"):
+                break
+            self.accept_one_postfix_op()
+
+    def accept_one_postfix_op(self) -> None:
         ch = self.peek()
 
         if ch == "?":
